@@ -72,6 +72,33 @@ def handleC01 (op : String) (input impl : Json) : Except String Json := do
       else if resClass impl == "panic" then pure (["no-panic"], false)
       else pure ((if big then [] else ["unexpected-error"]), resClass mj == "err")
     return reply mj agree viol
+  | "export" =>
+    -- `wrgl commit` + `wrgl export`: the exported CSV holds the model's stored rows, in order
+    if (input.getObjVal? "columns").toOption.isNone then
+      return reply (Json.mkObj [("res", "err")]) true []
+    let i ← ingestInOf input
+    let bs := Facts.blockSize
+    let m := ingestTable (refSort i.pk) bs Facts.addRowMaxCell (2 ^ 40) i.columns i.pk i.rows
+    let mj := jRes jStored m
+    let dup := hasDupKeysRows i.pk i.rows
+    if resClass impl == "panic" then return reply mj false ["no-panic"]
+    if resClass impl != "ok" then return reply mj (resClass mj == "err") (if resClass mj == "err" then [] else ["unexpected-error"])
+    let v := fldD impl "val" Json.null
+    let eCols ← asRow (fldD v "columns" (Json.arr #[]))
+    let eRows ← asRows (fldD v "rows" (Json.arr #[]))
+    -- the exported rows as one block list for the shared verdict
+    let asBlocks := fun (rows : List Row) =>
+      let rec cut (fuel : Nat) (l : List Row) : List (List Row) :=
+        match fuel with
+        | 0 => []
+        | f+1 => if l.isEmpty then [] else (l.take bs) :: cut f (l.drop bs)
+      cut (rows.length + 1) rows
+    let viol := (sortVerdict bs i.pk [] i.rows (asBlocks eRows)) ++
+      (if eCols == i.columns then [] else ["columns-preserved"])
+    let agree := match m with
+      | .ok ms => dup || ms.blocks.flatten == eRows
+      | _ => false
+    return reply mj agree viol
   | _ => throw s!"unknown op {op}"
 where
   hasDupKeysRows (pk : List Nat) (rows : List Row) : Bool := (distinctKeys pk rows).length != rows.length
